@@ -248,6 +248,7 @@ func (fx *Fx) runLoop(st *State, lp *loopParts) {
 	}
 	if ms.emits || ms.all {
 		head.havocLog()
+		head.havocHeap("NC")
 	}
 	if ms.allocs || ms.all {
 		head.havocAlloc()
